@@ -463,5 +463,7 @@ func runC15(p *Prog, r *Report, tier string) {
 	tb := codecAgreement(p, r, "R-CODEC", "enc+dec")
 	registryLengths(p, r, "R-CODEC.registry", tb)
 	prefixSites(p, r, "R-CODEC.prefix")
+	// the decoder consumes what the encoder wrote: no record of the set body is skipped
+	checkRecordLoopExits(p, r, "R-CODEC.record-loop")
 	lengthAccounting(p, r, "R-CODEC.length")
 }
